@@ -124,6 +124,24 @@ func runC09(r *Run) {
 			w := Precedes(ag, isSt, isSuccessExit, nil)
 			r.Check(w == nil, "R3", fnID(ag)+"#sets-"+parts[1], P.Pos(fnPos(ag)), "stored from the merged schedule on every success path", "addGrant can succeed without updating "+parts[1]+" from the merged schedules: the stored periods are relative to the merged start, so a stale "+parts[1]+" shifts or truncates every release event (the merge is no longer the union)", P.witness(w)...)
 		}
+		// the merge is DisjunctPeriods on every path: no side path computes the merged schedules some other way
+		for _, which := range []struct{ param, name string }{{"grantLockupPeriods", "lockup"}, {"grantVestingPeriods", "vesting"}} {
+			which := which
+			isDP := isCallMatching(func(ci CallInfo) bool {
+				if ci.Name != "DisjunctPeriods" {
+					return false
+				}
+				for _, a := range ci.Instr.Common().Args {
+					if backSlice(a).HasParam(which.param) {
+						return true
+					}
+				}
+				return false
+			})
+			w := Precedes(ag, isDP, isSuccessExit, nil)
+			r.Check(w == nil, "R3", fnID(ag)+"#merges-"+which.name+"-with-DisjunctPeriods", P.Pos(fnPos(ag)), "every success path merges the "+which.name+" schedules with DisjunctPeriods",
+				"addGrant can succeed on a path that does not merge the "+which.name+" schedules with DisjunctPeriods (a second, hand-written merge): whether that path yields the union of release events is not established — e.g. appending the grant after an idle gap measured from the account's EndTime shifts the events of whichever schedule ends earlier", P.witness(w)...)
+		}
 	} else {
 		r.Bad("R3", "anchor/addGrant", "", "not found")
 	}
